@@ -10,9 +10,11 @@
 package main
 
 import (
+	"bytes"
 	"fmt"
 	"math/bits"
 	"os"
+	osexec "os/exec"
 	"runtime"
 	"sort"
 	"strconv"
@@ -360,9 +362,21 @@ var cur *H
 var lastOp atomic.Value
 var progress atomic.Uint64
 
+// exec runs one op line. When the specification oracle or the holder table objects to what the implementation
+// just did, the objection is put in front of the raw result ("FAIL ... ; <raw>"): the line is then a concrete
+// failing input by itself (the following `chk` would report the same, but a case is cut at its first bad line).
 func exec(line string) string {
 	lastOp.Store(line)
 	defer progress.Add(1)
+	out := exec1(line)
+	if cur != nil && len(cur.verdict) > 0 && !strings.HasPrefix(line, "chk") && !strings.HasPrefix(out, "panic") {
+		out = "FAIL " + strings.Join(cur.verdict, " / ") + " ; " + out
+		cur.verdict = nil
+	}
+	return out
+}
+
+func exec1(line string) string {
 	return vx.Guard(func() string {
 		w := strings.Fields(line)
 		if len(w) == 0 {
@@ -639,7 +653,30 @@ func (h *H) resyncRelease(l int, c uint64, wl []*latch.Lock) {
 // ---------------------------------------------------------------- (b) stress through the scheduler goroutine
 
 // stress <round> <seed> <goroutines> <txns per goroutine> <pool> <size> <jump>
+// The scheduler goroutine cannot be guarded by recover from here: the round runs in a child process
+// (this binary with C17_STRESS_OP set), so a panic in LatchesScheduler.run becomes a FAIL line with its input.
 func stress(w []string) string {
+	if len(w) != 8 {
+		return "bad-op"
+	}
+	cmd := osexec.Command(os.Args[0])
+	cmd.Env = append(os.Environ(), "C17_STRESS_OP="+strings.Join(w, " "))
+	var stdout, stderr bytes.Buffer
+	cmd.Stdout, cmd.Stderr = &stdout, &stderr
+	if err := cmd.Run(); err != nil {
+		why := "exit"
+		for _, l := range strings.Split(stderr.String(), "\n") {
+			if strings.HasPrefix(l, "panic:") || strings.HasPrefix(l, "fatal error:") {
+				why = strings.Join(strings.Fields(l), "-")
+				break
+			}
+		}
+		return "FAIL stress: process died: " + why
+	}
+	return strings.TrimSpace(stdout.String())
+}
+
+func stressInProc(w []string) string {
 	if len(w) != 8 {
 		return "bad-op"
 	}
@@ -680,6 +717,9 @@ func stress(w []string) string {
 			for t := 0; t < nt; t++ {
 				id := g*nt + t + 1
 				nk := 1 + r.Intn(3)
+				if nk > pool {
+					nk = pool
+				}
 				seen := map[int]bool{}
 				var keys [][]byte
 				var hk []string
@@ -976,6 +1016,10 @@ func (g *gen) walk(r *vx.Rand, big bool) {
 }
 
 func main() {
+	if op := os.Getenv("C17_STRESS_OP"); op != "" {
+		fmt.Println(stressInProc(strings.Fields(op)))
+		return
+	}
 	run := vx.Start()
 	defer run.Finish()
 	// an op that does not come back is a finding of its own (lost wake-ups cannot block here, but a broken loop could)
@@ -1007,7 +1051,7 @@ func main() {
 		}
 		return
 	}
-	r := vx.NewRand(run.Seed)
+	r := vx.NewRand(vx.NewRand(run.Seed).U64()) // decorrelate neighbouring seeds (splitmix streams of seed and seed+1 overlap)
 	g := &gen{run: run, lc: latch.VerifListCount(), exp: uint64(latch.VerifExpireMillis()), shift: tsShift()}
 
 	// (a1) two transactions: fixed key-set shapes x all start/commit orders over 1..4 (ties included) x slot counts
@@ -1019,15 +1063,12 @@ func main() {
 		{{"6b32", "6b34"}, {"6b34", "6b31", "6b35"}},
 		{{"6b35", "6b31"}, {"6b31"}},
 	}
-	for si, sh := range shapes {
+	for _, sh := range shapes {
 		for _, size := range []int{1, 2} {
 			for s1 := uint64(1); s1 <= 3; s1++ {
 				for c1 := s1; c1 <= 4; c1++ {
 					for s2 := uint64(1); s2 <= 3; s2++ {
 						for c2 := s2; c2 <= 4; c2++ {
-							if !run.Thorough() && (si+int(s1+c1+s2+c2)+size+int(run.Seed))%3 != 0 {
-								continue
-							}
 							g.runConfig(size, []txn{{sh[0], s1, c1}, {sh[1], s2, c2}}, "two", 100)
 						}
 					}
@@ -1036,9 +1077,9 @@ func main() {
 		}
 	}
 	// (a2) three (and, thorough, four) transactions: seeded configurations, all interleavings of each
-	n3, n4 := 45, 0
+	n3, n4 := 300, 2
 	if run.Thorough() {
-		n3, n4 = 500, 24
+		n3, n4 = 1500, 15
 	}
 	for i := 0; i < n3; i++ {
 		g.runConfig([]int{1, 2, 2, 4}[r.Intn(4)], randTxns(r, 3), "three", 2000)
@@ -1047,17 +1088,17 @@ func main() {
 		g.runConfig([]int{1, 2, 2}[r.Intn(3)], randTxns(r, 4), "four", 6000)
 	}
 	// (a3) slot-granularity random walks (the model's atomic steps), with and without recycling
-	nw := 1200
+	nw := 5000
 	if run.Thorough() {
-		nw = 15000
+		nw = 20000
 	}
 	for i := 0; i < nw; i++ {
 		g.walk(r.Fork(), i%3 == 0)
 	}
 	// (b) the real scheduler goroutine
-	ns := 12
+	ns := 30
 	if run.Thorough() {
-		ns = 150
+		ns = 300
 	}
 	g.caseNo++
 	run.Comment(fmt.Sprintf("case %d stress", g.caseNo))
